@@ -4,5 +4,5 @@ CONSTANTS
   Subs = {"", "service", "topic"}
   MaxRefs = 3
   EmitCases = TRUE
-INVARIANTS TypeOK Closed ParentListed NamedDirect IndirectMinimal OrderIndependent Emit
+INVARIANTS TypeOK Closed ParentListed NamedDirect IndirectMinimal OrderIndependent ListedExact Emit
 CHECK_DEADLOCK FALSE
